@@ -14,7 +14,7 @@ from hl7apy.parser import get_message_type, get_message_info, parse_message
 from hl7apy.exceptions import HL7apyException
 
 MAXLEN = 8 if THOROUGH else 7
-MAXLEN_PARSE = 5 if THOROUGH else 4
+MAXLEN_PARSE = 6 if THOROUGH else 5
 
 MSGS = [
     'MSH|^~\\&|A|B|||2020||ADT^A01|1|P|2.5\rPID|1||X^^^H&I||S^N~T\rZZZ|1',
